@@ -26,6 +26,7 @@ pub struct SodiumCtx {
 
 pub struct SodiumCtxData {
     pub changed_nodes: Vec<Box<dyn IsNode>>,
+    pub changed_dependents: Vec<Box<dyn IsWeakNode + Send + Sync>>,
     pub visited_nodes: Vec<Box<dyn IsNode>>,
     pub transaction_depth: u32,
     pub pre_eot: Vec<Box<dyn FnMut() + Send>>,
@@ -128,6 +129,7 @@ impl SodiumCtx {
             gc_ctx: GcCtx::new(),
             data: Arc::new(Mutex::new(SodiumCtxData {
                 changed_nodes: Vec::new(),
+                changed_dependents: Vec::new(),
                 visited_nodes: Vec::new(),
                 transaction_depth: 0,
                 pre_eot: Vec::new(),
@@ -179,12 +181,14 @@ impl SodiumCtx {
 
     pub fn add_dependents_to_changed_nodes(&self, node: &dyn IsNode) {
         self.with_data(|data: &mut SodiumCtxData| {
+            // parked as weak references and upgraded only when their turn comes, like the direct walk
+            // of the dependents does: a node dropped in the meantime (a listener unlistened from
+            // another listener's callback) must not run
             let node_dependents = node.data().dependents.read();
             node_dependents
                 .iter()
-                .flat_map(|node: &Box<dyn IsWeakNode + Send + Sync + 'static>| node.upgrade())
-                .for_each(|node: Box<dyn IsNode + Send + Sync>| {
-                    data.changed_nodes.push(node);
+                .for_each(|node: &Box<dyn IsWeakNode + Send + Sync + 'static>| {
+                    data.changed_dependents.push(node.box_clone());
                 });
         });
     }
@@ -257,11 +261,19 @@ impl SodiumCtx {
                 mem::swap(&mut changed_nodes, &mut data.changed_nodes);
                 changed_nodes
             });
-            if changed_nodes.is_empty() {
+            let changed_dependents = self.with_data(|data: &mut SodiumCtxData| {
+                mem::take(&mut data.changed_dependents)
+            });
+            if changed_nodes.is_empty() && changed_dependents.is_empty() {
                 break;
             }
             for node in changed_nodes {
                 self.update_node(node.node());
+            }
+            for dependent in changed_dependents {
+                if let Some(dependent2) = dependent.upgrade() {
+                    self.update_node(dependent2.node());
+                }
             }
         }
         self.with_data(|data: &mut SodiumCtxData| {
